@@ -59,3 +59,10 @@ pub use self::os::{OsIpcSelectionResult, OsIpcSender, OsIpcSharedMemory};
 
 #[cfg(test)]
 mod test;
+
+#[cfg(all(
+    ipc_channel_verif,
+    not(feature = "force-inprocess"),
+    any(target_os = "linux", target_os = "openbsd", target_os = "freebsd")
+))]
+pub use self::os::verif_constants;
